@@ -200,6 +200,7 @@ macro "trf_step" : tactic => `(tactic| first
   | (apply Tr_Fr; intro _ _ _)
   | (apply Post_ENF; intro _)
   | split
+  | ((repeat (first | rfl | (refine Eq.trans (by assumption) ?_))); done)
   | (simp_all; done)
   | (simp only [F] at *; simp_all; done))
 
